@@ -257,6 +257,7 @@ NESTED_SEEDS = [((3, 2, 0, 5, 7, 6, 1, 4), 6), ((5, 7, 3, 2, 6, 0, 1, 4), 7), ((
 
 class H(Harness):
     ID = 'C09'
+    ANCHOR_FILES = ['epydemic/drawset.py', 'epydemic/bbt.py', 'epydemic/loci.py']
     TIE_IMPORT = 'From EpyV Require Import Tie.C09 Model.Bbt.'
     CHECK_FN = 'EpyV.Tie.C09.check_case'
     QUICK_N = 450
